@@ -71,6 +71,7 @@ type c14Hist struct {
 	Closures map[string][]string  `json:"closures"` // prog -> closure (generator's notion)
 	StdUsed  map[string][]string  `json:"std_used"`
 	Decoys   []string             `json:"decoys"`
+	Wide     bool                 `json:"wide,omitempty"` // the world holds 40-70 programs that import a module each
 	Long     bool                 `json:"long,omitempty"` // the world holds fill.tsh and probe0..2.tsh, and the history ends with some hundred calls
 	Twins    bool                 `json:"twins,omitempty"` // the world holds tw/one/util.tsh and tw/two/util.tsh with the same bytes
 	Mount0   string               `json:"mount0"`
@@ -392,6 +393,21 @@ func c14GenOdd(r *Run, rng *gen.Rng, corpus []string, oddPool []string) *c14Hist
 			gw.Set(n, []byte(fmt.Sprintf("func probe%d(a int) int {\n\treturn a + %d\n}\nprint(probe%d(1))\n", i, i, i)))
 			gw.Edges[n] = nil
 			h.Progs = append(h.Progs, n)
+		}
+	}
+	if rng.Chance(1) {
+		// a process that sees many DIFFERENT modules: 40-70 small programs, each importing a module
+		// of its own (distinct bytes, same function names). Anything that keeps a bounded number of
+		// files, token lists or parse results per process (16, 32, 64 slots) has to evict.
+		h.Wide = true
+		nw := rng.Pick2([]int{40, 70})
+		for i := 0; i < nw; i++ {
+			l, m := fmt.Sprintf("wide/l%02d.tsh", i), fmt.Sprintf("wide/p%02d.tsh", i)
+			gw.Set(l, []byte(fmt.Sprintf("func Tag() string {\n\treturn \"module %d\"\n}\nfunc Val(a int) int {\n\treturn a * %d + %d\n}\nprint(\"loaded\", Tag())\n", i, i+2, i)))
+			gw.Set(m, []byte(fmt.Sprintf("import w \"l%02d.tsh\"\nprint(w.Val(%d), w.Tag())\n", i, i)))
+			gw.Edges[l] = nil
+			gw.Edges[m] = []string{l}
+			h.Progs = append(h.Progs, m)
 		}
 	}
 	h.Files = gw.Files
